@@ -20,6 +20,11 @@
 (*  output (a valid case) and then gets the axis-name faults; the k-th output spec / the k-th output name gets the          *)
 (*  signature fault / the rename collision.  Operator default_pair: two functions that share a root argument declare two   *)
 (*  DIFFERENT defaults drawn from {None, 0, an ordinary value}, in both orders (None first / None second, ...).            *)
+(*  Family "wide_zip": a MapSpec that zips THREE OR FOUR arrays along one axis (universe WideBases), every root array     *)
+(*  grown and shrunk along every axis, so that the array out of step is the first, a middle or the last one.  Family        *)
+(*  "derived_mapspec": the chain f -> e -> g of the C01 cases with f, e combined by a NestedPipeFunc (Validity!Nest) or      *)
+(*  rewritten by add_mapspec_axis (Validity!AddMapspecAxis) and the hand-written g given the axis-name faults; the mutant    *)
+(*  carries `pre` (what is written by hand) and `how` (which derivation the harness asks the library for).                   *)
 (*  Trace part (mechanism C): requests built by the harness (fixed examples from the repository's tests, random        *)
 (*  larger mutants) with the recorded outcome of the real code; TLC runs the Prepare machine on the request and        *)
 (*  accepts the record iff it is an end state of the machine.                                                          *)
@@ -27,6 +32,7 @@ EXTENDS Validity, SequencesExt, Json, IOUtils, TLCExt
 CONSTANTS MaxSize, RichM, ShardM, NShardsM,     \* the MC_MapDenote universe (sharded there)
           N, RichP, ShardP, NShardsP,           \* the MC_PipelineCall universe (sharded here by description)
           ShardT, NShardsT,                     \* the tuple-output cases of the MC_MapDenote universe (sharded here)
+          ShardD, NShardsD,                     \* the chain cases of the derived-MapSpec family (sharded here)
           Families                              \* which mutant families this process generates: a subset of AllFamilies
 
 VARIABLES mut,      \* universe part: the mutant record [op, req, how] (req.prev = the valid base case, how = the public-API
@@ -273,6 +279,77 @@ TupleMutants(b) ==
     \cup {[op |-> "mapspec_signature_sibling", req |-> MapReq(m, c, b), how |-> NoHow] : m \in SignatureAtSibling(b), c \in TupleCfgs}
     \cup {[op |-> "rename_collision_sibling", req |-> MapReq(m, c, b), how |-> NoHow] : m \in CollisionAtSibling(b), c \in TupleCfgs}
 
+(* --- an axis shared by THREE OR MORE arrays of one MapSpec (the C01 universe zips at most two).  One function f whose   *)
+(* MapSpec lists three or four arrays (WideSpecs: all on one axis; ranks mixed; the shared axis at different positions),    *)
+(* optionally with one of the arrays - the first, a middle one, the last - PRODUCED by an upstream function p from a root    *)
+(* array x of the same axes (the zip then sits in the second generation).  Every root array is resized along every one of    *)
+(* its axes, growing (ResizedAxis) and shrinking by one slice: the array that is out of step is the first, a middle or the   *)
+(* last one of the MapSpec, longer or shorter than the others.                                                               *)
+WideNames == <<"a", "b", "c", "d">>
+WideSpecs == {<<<<"i">>, <<"i">>, <<"i">>>>, <<<<"i">>, <<"i">>, <<"i">>, <<"i">>>>, <<<<"i">>, <<"i", "j">>, <<"i">>>>,
+              <<<<"i", "j">>, <<"j">>, <<"j", "i">>, <<"j">>>>, <<<<"j">>, <<"i", "j">>, <<"i">>, <<"i">>>>}
+WideAxes(ws) == UNION {SeqToSet(ws[k]) : k \in DOMAIN ws}
+WideOut(ws)  == IF "j" \in WideAxes(ws) THEN <<"i", "j">> ELSE <<"i">>
+WideDesc(ws, prod) ==
+    LET ins == [k \in DOMAIN ws |-> [name |-> WideNames[k], axes |-> ws[k]]]
+        f   == M!MkFn("f", [k \in DOMAIN ws |-> WideNames[k]] \o <<"s">>, <<"y">>, TRUE, ins, WideOut(ws), <<>>)
+        p   == M!MkFn("p", <<"x">>, <<WideNames[prod]>>, TRUE, <<[name |-> "x", axes |-> ws[prod]]>>, ws[prod], <<>>)
+    IN  [funcs |-> IF prod = 0 THEN <<f>> ELSE <<p, f>>]
+WideInputs(ws, prod, sz) ==
+    [k \in DOMAIN ws |-> LET n == IF k = prod THEN "x" ELSE WideNames[k] IN <<n, M!InputArr(n, [m \in DOMAIN ws[k] |-> sz[ws[k][m]]])>>]
+    \o <<<<"s", Atom("@s")>>>>
+WideBases == UNION {{[desc |-> WideDesc(x[1], x[2]), inputs |-> WideInputs(x[1], x[2], x[3])] :
+                         x \in {y \in {ws} \X (0..Len(ws)) \X [WideAxes(ws) -> 1..MaxSize] :
+                                   (Len(ws) + y[2] + SumSizes(y[3])) % NShardsD = ShardD}} : ws \in WideSpecs}     \* (sharded like the next family)
+(* one slice less along axis k (only where that leaves at least one) *)
+RECURSIVE ShrinkAlong(_, _), SizeAlong(_, _)
+ShrinkAlong(v, k) == IF k = 1 THEN Arr(SubSeq(v.a, 1, Len(v.a) - 1))
+                     ELSE Arr([n \in DOMAIN v.a |-> ShrinkAlong(v.a[n], k - 1)])
+SizeAlong(v, k) == IF k = 1 THEN Len(v.a) ELSE SizeAlong(v.a[1], k - 1)
+ShrunkAxis(b) == {SetInput(b, pk[1], ShrinkAlong(PGet(b.inputs, pk[1]), pk[2])) :
+                      pk \in {q \in ArrayInputs(b) \X (1..3) : q[2] <= ArrayRank(b.desc, q[1]) /\ SizeAlong(PGet(b.inputs, q[1]), q[2]) >= 2}}
+WideMutants(b) == {[op |-> "resized_axis_wide", req |-> MapReq(m, c, b), how |-> NoHow] :
+                       m \in ResizedAxis(b) \cup ShrunkAxis(b), c \in TupleCfgs}
+
+(* --- MapSpecs that the library derived, next to a hand-written one that disagrees with them.  The chain                   *)
+(*       f : a[..], b[..] -> y[yax]      e : y[yax] -> z[yax]      g : a consumer of y or of z                              *)
+(* from the C01 cases (no internal axis, no reduction in f, consumer element-wise / partial / zipped with a fresh root).     *)
+(*  "nest":     Pipeline([NestedPipeFunc([f, e]), g]) - y and z are mentioned by the combined MapSpec and by g only;         *)
+(*  "add_axis": Pipeline([f, e]).add_mapspec_axis("a", axis="m"), then .add(g) with g written for the new axes - f and e     *)
+(*              carry rewritten MapSpecs.                                                                                    *)
+(* g then gets the axis-name faults (an axis renamed throughout g, two axes swapped in its input spec).  `pre` is what the    *)
+(* harness builds by hand before it lets the library derive: the three functions / the two functions before the axis.        *)
+ChainCases == {c \in M!MapCases : /\ ~c.multi /\ M!CaseOK(c) /\ c.ipos = 0 /\ c.cons \in {"elementwise", "partial", "zipnew"}
+                                  /\ ":" \notin SeqToSet(c.a) /\ ":" \notin SeqToSet(c.b)}
+PassOn(yax) == M!MkFn("e", <<"y">>, <<"z">>, TRUE, <<[name |-> "y", axes |-> yax]>>, yax, <<>>)
+ChainSizes(c) == [x \in M!AxesUsed(c) |-> IF x = "j" THEN 1 ELSE MaxSize]
+(* f, e and the consumer (of `target`: y or z) for output axes yax *)
+Chain3(c, yax, target) ==
+    LET f  == M!DescOf(c).funcs[1]
+        d3 == [funcs |-> <<f, PassOn(M!YAx(c))>> \o M!Consumer(c.cons, yax)]
+    IN  IF target = "z" THEN RenameParam(d3, 3, "y", "z") ELSE d3
+OnlyConsumerChanged(m, b) == m.desc.funcs[1] = b.desc.funcs[1] /\ m.desc.funcs[2] = b.desc.funcs[2]
+NestMutants(c) ==
+    UNION {LET b3 == [desc |-> Chain3(c, M!YAx(c), target), inputs |-> M!InputsOf(c, ChainSizes(c))]
+               nb == [desc |-> Nest(b3.desc, {1, 2}, "nest"), inputs |-> b3.inputs] IN
+           {[op |-> "axis_names_nested", req |-> MapReq([desc |-> Nest(m.desc, {1, 2}, "nest"), inputs |-> m.inputs], cf, nb),
+             how |-> [kind |-> "nest", f |-> "f", old |-> "e", new |-> ""], pre |-> m.desc] :
+                m \in {x \in AxisNames(b3) : OnlyConsumerChanged(x, b3)}, cf \in TupleCfgs} : target \in {"y", "z"}}
+NewAxis == "m"
+AddAxisMutants(c) ==
+    UNION {LET yax2 == Append(M!YAx(c), NewAxis)
+               d3   == Chain3(c, yax2, target)
+               pre  == [funcs |-> <<d3.funcs[1], d3.funcs[2]>>]
+               d2   == AddMapspecAxis(pre, "a", NewAxis)
+               inp  == SetInput([inputs |-> M!InputsOf(c, ChainSizes(c))], "a",
+                                M!InputArr("a", Append(M!ShapeFor(c.a, ChainSizes(c), "p"), MaxSize))).inputs
+               vb   == [desc |-> [funcs |-> d2.funcs \o <<d3.funcs[3]>>], inputs |-> inp] IN
+           {[op |-> "axis_names_added_axis", req |-> MapReq(m, cf, vb),
+             how |-> [kind |-> "add_axis", f |-> "g", old |-> "a", new |-> NewAxis], pre |-> pre] :
+                m \in {x \in AxisNames(vb) : OnlyConsumerChanged(x, vb)}, cf \in TupleCfgs} : target \in {"y", "z"}}
+DerivedKey(c) == M!ConsIdx(c.cons) + 3 * Len(c.a) + 5 * Len(c.b) + (IF c.oax[1] = "i" THEN 0 ELSE 1)
+DerivedMutants == UNION {NestMutants(c) \cup AddAxisMutants(c) : c \in {x \in ChainCases : DerivedKey(x) % NShardsD = ShardD}}
+
 (* --- the call side: pipeline(out, **kw) on the C02 descriptions; the valid base call passes every root argument that a  *)
 (* needed function reads; one keyword is dropped (missing unless it has a default) or one is added (a name that no        *)
 (* needed function takes: surplus; an intermediate on the path: a valid cut, stays valid)                                 *)
@@ -288,7 +365,8 @@ CallMutants(b) ==
 
 AllOps == Ops \cup {"unknown_storage_in_dict", "post_rename_output", "post_rename_param", "post_update_defaults",
                     "call_dropped_kw", "call_added_kw", "rename_collision_call", "added_edge_call", "changed_default_call",
-                    "default_pair_call", "axis_names_sibling", "mapspec_signature_sibling", "rename_collision_sibling"}
+                    "default_pair_call", "axis_names_sibling", "mapspec_signature_sibling", "rename_collision_sibling",
+                    "resized_axis_wide", "axis_names_nested", "axis_names_added_axis"}
 (* the clauses a mutation operator can break (law) *)
 OpClauses(op) == CASE op = "rename_collision"  -> {"UniqueOutputs", "OutputNotOwnParam", "Acyclic"}
                    [] op = "added_edge"        -> {"OutputNotOwnParam", "Acyclic"}
@@ -315,18 +393,26 @@ OpClauses(op) == CASE op = "rename_collision"  -> {"UniqueOutputs", "OutputNotOw
                    [] op = "axis_names_sibling"        -> {"ConsistentAxes"}
                    [] op = "mapspec_signature_sibling" -> {"MapSpecMatchesSignature"}
                    [] op = "rename_collision_sibling"  -> {"UniqueOutputs", "OutputNotOwnParam", "Acyclic"}
+                   [] op = "resized_axis_wide"         -> {"ZipDimsOK"}
+                   [] op = "axis_names_nested"         -> {"ConsistentAxes"}
+                   [] op = "axis_names_added_axis"     -> {"ConsistentAxes"}
 
 (* ("illformed_call": through pipeline(out, **kw); "illformed_run_func": the same requests through run and func) *)
-AllFamilies == {"basic", "storage_dict", "post_map", "post_call", "call_kw", "illformed_call", "illformed_run_func", "tuple_output"}
+AllFamilies == {"basic", "storage_dict", "post_map", "post_call", "call_kw", "illformed_call", "illformed_run_func", "tuple_output",
+                "wide_zip", "derived_mapspec"}
 ASSUME Families \subseteq AllFamilies
+PerBaseFamilies == {"basic", "storage_dict", "post_map", "post_call", "call_kw", "illformed_call", "illformed_run_func"}
 Mutants == UNION {(IF "basic" \in Families THEN BasicMutants(b) ELSE {})
                   \cup (IF "storage_dict" \in Families THEN StorageDictMutants(b) ELSE {})
                   \cup (IF "post_map" \in Families THEN PostMapMutants(b) ELSE {})
                   \cup (IF "post_call" \in Families THEN PostCallMutants(b) ELSE {})
                   \cup (IF "call_kw" \in Families THEN CallMutants(b) ELSE {})
                   \cup (IF "illformed_call" \in Families THEN IllFormedCallMutants(b, {"call"}) ELSE {})
-                  \cup (IF "illformed_run_func" \in Families THEN IllFormedCallMutants(b, CallEntries \ {"call"}) ELSE {}) : b \in Bases}
+                  \cup (IF "illformed_run_func" \in Families THEN IllFormedCallMutants(b, CallEntries \ {"call"}) ELSE {}) :
+                     b \in IF Families \cap PerBaseFamilies = {} THEN {} ELSE Bases}     \* (the C01/C02 bases are not even enumerated then)
            \cup (IF "tuple_output" \in Families THEN UNION {TupleMutants(b) : b \in TupleBases} ELSE {})
+           \cup (IF "wide_zip" \in Families THEN UNION {WideMutants(b) : b \in WideBases} ELSE {})
+           \cup (IF "derived_mapspec" \in Families THEN DerivedMutants ELSE {})
 
 ---------------------------------------------------------------------------
 (* universe part: one behaviour of the Prepare machine per mutant *)
@@ -345,8 +431,14 @@ LawMapDenote      == LawAgreesWithMapDenote(mut.req)                       \* th
 LawEntryBlind     == ConstructionVerdictIsEntryBlind(mut.req)              \* a construction verdict belongs to the pipeline
 LawAxesRole       == LawAxesByRole(mut.req.desc)                           \* every output spec of a producer counts
 LawDefaultsSym    == LawDefaultsSymmetric(mut.req.desc)                    \* defaults: neither order nor the values matter
+(* every array of a zip counts, in any listing order (evaluated for the resized-axis mutants) *)
+LawZipAll         == mut.op \in {"resized_axis", "resized_axis_wide"} => LawZipIsAboutAllArrays(mut.req.desc, mut.req.inputs)
+(* the derived MapSpecs: nesting keeps the verdict about the arrays; a fresh axis keeps a consistent pipeline consistent *)
+LawDerived        == /\ mut.how.kind = "nest" => /\ LawNestKeepsAxesVerdict(mut.pre, {1, 2})
+                                                 /\ Nestable(mut.pre, {1, 2}) /\ ~ConsistentAxes(mut.pre) => ~ConsistentAxes(mut.req.desc)
+                     /\ mut.how.kind = "add_axis" => LawAddAxisKeepsConsistency(mut.pre, mut.how.old, mut.how.new)
 Laws == AtSecond => LET v == FirstViolated(mut.req) IN LawBaseValid /\ LawConj(v) /\ LawOpClause(v) /\ LawMapDenote /\ LawEntryBlind
-                                                       /\ LawAxesRole /\ LawDefaultsSym
+                                                       /\ LawAxesRole /\ LawDefaultsSym /\ LawZipAll /\ LawDerived
 InvRejectIsPure       == RejectIsPure
 StorageMutantsOnly    == mut.op \in {"unknown_storage", "unknown_storage_in_dict"}   \* CONSTRAINTs of the runs that look for
 CallMutantsOnly       == mut.op \in {"call_dropped_kw", "call_added_kw"}            \* the implementation-shaped orderings
@@ -361,7 +453,8 @@ Stage(v) == IF v \in ConstructionClauses THEN "construct" ELSE IF v = "none" THE
 Emit == ~AtSecond \/
         LET v == FirstViolated(mut.req) IN
         IF v = "none" THEN PrintT(<<"STAYED_VALID", ToJson([op |-> mut.op])>>)
-        ELSE PrintT(<<"CASE", ToJson([op |-> mut.op, req |-> mut.req, how |-> mut.how, violated |-> v, stage |-> Stage(v)])>>)
+        ELSE PrintT(<<"CASE", ToJson([op |-> mut.op, req |-> mut.req, how |-> mut.how, violated |-> v, stage |-> Stage(v),
+                                       pre |-> IF "pre" \in DOMAIN mut THEN mut.pre ELSE [funcs |-> <<>>]])>>)
 
 ---------------------------------------------------------------------------
 (* trace part: {desc, inputs, cfg, prev, ev: [{e: "outcome", outcome: "rejected"|"returned", calls: Nat, folder_changed: BOOLEAN}]} *)
